@@ -11,6 +11,7 @@ TOK = re.compile(r'''
  | (?P<cstr>c"(?:[^"\\]|\\[0-9A-Fa-f]{2}|\\\\)*")
  | (?P<lq>%"(?:[^"\\]|\\.)*")
  | (?P<gq>@"(?:[^"\\]|\\.)*")
+ | (?P<comdat>\$[-a-zA-Z$._0-9]+|\$"(?:[^"\\]|\\.)*")
  | (?P<local>%[-a-zA-Z$._0-9]+)
  | (?P<glob>@[-a-zA-Z$._0-9]+)
  | (?P<meta>![-a-zA-Z$._0-9]*(?:\([^)]*\))?)
@@ -264,6 +265,8 @@ def logical_lines(text):
             j = i + 1
             while not lines[j].strip().startswith(']'): l += ' ' + lines[j].strip(); j += 1
             l += ' ]'; i = j
+        elif i + 1 < len(lines) and lines[i + 1].lstrip().startswith('to label '):
+            l += ' ' + lines[i + 1].strip(); i += 1
         elif ' landingpad ' in st or st.startswith('landingpad'):
             j = i + 1
             while j < len(lines) and re.match(r'\s+(catch|filter|cleanup)\b', lines[j]): l += ' ' + lines[j].strip(); j += 1
